@@ -121,7 +121,8 @@ Observe ==
                permit |-> Permit(Root, o),
                swallows |-> Swallows(Root, o) \/ LET k == KeysOf(Root, o) IN k.ok /\ Swallows(Root, Restrict(o, k.ks)),
                visited |-> {x.n : x \in Visit(Root, o)} \cup {BaseOf(x.n) : x \in Visit(Root, o)},
-               raises |-> Raises, hist |-> hist, visitedn |-> {x.n : x \in Visit(Root, o)},
+               raises |-> Raises, hist |-> hist,
+               set0 |-> LET r == NodeRec(Root) IN IF r.k = "opt" /\ (o.t = "d") THEN SetPath(r.p, I(0), o) ELSE EmptyD, visitedn |-> {x.n : x \in Visit(Root, o)},
                overlay |-> LET r == NodeRec(Root) IN
                            IF r.k = "with" THEN Overlay(r, o) ELSE IF r.k = "ds" THEN DsOptions(r, o) ELSE o]
 
